@@ -42,7 +42,9 @@ def replay(recording, keep=False):
         for r in recording["rec"]:
             k = r["k"]
             if k == "write":
-                w.write_bytes(r["f"], r["data"].encode("utf-8", "surrogateescape"), unrel(r["repo"]) if r.get("repo") else None)
+                import base64
+                data = base64.b64decode(r["b64"]) if "b64" in r else r["data"].encode("utf-8")
+                w.write_bytes(r["f"], data, unrel(r["repo"]) if r.get("repo") else None)
             elif k == "git":
                 if not first_init_skipped and r["args"][:1] == ["init"]:
                     first_init_skipped = True
